@@ -323,6 +323,45 @@ Definition arr_add (o : oracle) (a : arr) (child : list nat) (s : ast) : res arr
        | UB => UB
        end.
 
+(* json_object_array_del_idx = array_list_del_idx(arr, idx, count): releases the elements of the
+   range (free_fn = json_object_put on elements the array owns alone), closes the gap; it asks
+   the allocator for nothing — there is no oracle argument — and keeps the capacity *)
+Definition arr_del (a : arr) (idx count : Z) (s : ast) : res arr :=
+  if (idx <? 0) || (count <? 0) || (idx >=? ar_len a) || (idx + count >? ar_len a) then Fail s
+  else match free_list (concat (zfirstn count (zskipn idx (ar_elems a)))) s with
+       | Ok _ s' => Ok (mkarr (ar_node a) (ar_struct a) (ar_store a) (ar_len a - count) (ar_size a)
+                              (zfirstn idx (ar_elems a) ++ zskipn (idx + count) (ar_elems a))) s'
+       | Fail s' => Fail s'
+       | UB => UB
+       end.
+
+(* json_object_array_shrink = array_list_shrink(arr, empty_slots): documented to possibly fail *)
+Definition arr_shrink (o : oracle) (a : arr) (empty_slots : Z) (s : ast) : res arr :=
+  if empty_slots >=? SIZE_MAX / 8 - ar_len a then Fail s
+  else
+    let new_size := ar_len a + empty_slots in
+    if new_size =? ar_size a then Ok a s
+    else if new_size >? ar_size a then arr_expand o a new_size s
+    else
+      let new_size := if new_size =? 0 then 1 else new_size in
+      match realloc o (ar_store a) s with
+      | Ok b s' => Ok (mkarr (ar_node a) (ar_struct a) b (ar_len a) new_size (ar_elems a)) s'
+      | Fail s' => Fail s'
+      | UB => UB
+      end.
+
+(* the shape in which the delete ends with "return array_list_shrink(...)" once most slots are
+   unused (negative control): the elements are released and the array shortened, and then a
+   failed realloc is reported as the failure of the whole call *)
+Definition arr_del_shrinking (o : oracle) (a : arr) (idx count : Z) (s : ast) : res arr * option arr :=
+  match arr_del a idx count s with
+  | Ok a1 s1 =>
+      if (ar_size a1 >? 32) && (ar_len a1 <? ar_size a1 / 4)
+      then (arr_shrink o a1 (ar_len a1) s1, Some a1)      (* second component: what the array is now *)
+      else (Ok a1 s1, Some a1)
+  | r => (r, None)
+  end.
+
 (* json_tokener_parse_ex, case json_tokener_state_array_add: [child] are the blocks of the
    finished element, referenced by the call-local obj only (reference count 1).
      if (json_object_array_add(current, obj) != 0) { [json_object_put(obj);] tok->err = memory; goto out; }
